@@ -229,6 +229,10 @@ func (r *resolver) enter(d Definition) ([]Definition, error) {
 			if _, err := r.addDefinitions(c, c.popDataDefinitions()); err != nil {
 				return nil, err
 			}
+			if c.implied && len(c.DataDefinitions()) == 0 {
+				// the node written directly in the choice is switched off: so is the case around it
+				delete(hasCases.cases, cident)
+			}
 		}
 		return nil, nil
 	}
@@ -1071,7 +1075,6 @@ func (r *resolver) expandAugment(y *Augment, parent Meta) error {
 	for _, orig := range y.DataDefinitions() {
 		var err error
 		d := orig.(cloneable).clone(target).(Definition)
-		added = append(added, d)
 		if y.when != nil {
 			// augment's condition guards every node it adds
 			if hasWhen, valid := d.(HasWhen); valid {
@@ -1079,6 +1082,16 @@ func (r *resolver) expandAugment(y *Augment, parent Meta) error {
 			}
 		}
 		if targetIsChoice {
+			// what a feature switches off is not added (module level augments are filtered before
+			// they get here, the ones of a uses are not)
+			if hasIf, guarded := d.(HasIfFeatures); guarded {
+				if on, ferr := checkFeature(hasIf); ferr != nil {
+					return ferr
+				} else if !on {
+					continue
+				}
+			}
+			added = append(added, d)
 			if cs, isCase := d.(*ChoiceCase); isCase {
 				if err = targetChoice.addCase(cs); err != nil {
 					return err
@@ -1087,9 +1100,11 @@ func (r *resolver) expandAugment(y *Augment, parent Meta) error {
 			} else {
 				// add implied case
 				cs := r.builder.Case(target, d.Ident())
+				cs.implied = true
 				_, err = r.addDataDefinition(cs, d)
 			}
 		} else if parentDef, hasDefs := target.(HasDataDefinitions); hasDefs {
+			added = append(added, d)
 			_, err = r.addDataDefinition(parentDef, d)
 		} else {
 			// TODO: Support RCP Input and Output, choice cases as targets
